@@ -20,17 +20,17 @@ VENTRY(h_region)
     const int n = g.numberOfNodes();
     Vector<double> x(n), f(n), r(n), t(n);
     fillv(x, 1); fillv(f, 2); fillv(r, 3); fillv(t, 4);
-    if (op == 0 || op == 1) { auto R = vresidual(b, op == 0 ? 1 : 0, T); vset_threads(T); vreach("parallel-code-reached"); R->computeResidual(r, f, x); }
-    else if (op == 2 || op == 3) { auto S = vsmoother(b, op == 2 ? 1 : 0, 1); vset_threads(T); S->num_omp_threads_; vreach("parallel-code-reached");
+    if (op == 0 || op == 1) { auto R = vresidual(b, op == 0 ? 1 : 0, T); vset_threads(T); vrace_begin(); vreach("parallel-code-reached"); R->computeResidual(r, f, x); }
+    else if (op == 2 || op == 3) { auto S = vsmoother(b, op == 2 ? 1 : 0, 1); vset_threads(T); S->num_omp_threads_; vrace_begin(); vreach("parallel-code-reached");
         // the object was built single-threaded; run the sweep with the multi-thread setting
         const_cast<int&>(S->num_omp_threads_) = T; S->smoothing(x, f, t); }
-    else if (op == 4 || op == 5) { auto S = vexsmoother(b, op == 4 ? 1 : 0, 1); vset_threads(T); vreach("parallel-code-reached");
+    else if (op == 4 || op == 5) { auto S = vexsmoother(b, op == 4 ? 1 : 0, 1); vset_threads(T); vrace_begin(); vreach("parallel-code-reached");
         const_cast<int&>(S->num_omp_threads_) = T; S->extrapolatedSmoothing(x, f, t); }
-    else if (op == 6 || op == 7) { vset_threads(T); vreach("parallel-code-reached"); auto D = vdirect(b, op == 6 ? 1 : 0, T); }
-    else if (op == 8 || op == 9) { vset_threads(T); vreach("parallel-code-reached"); auto S = vsmoother(b, op == 8 ? 1 : 0, T); }
-    else if (op == 10 || op == 11) { vset_threads(T); vreach("parallel-code-reached"); auto S = vexsmoother(b, op == 10 ? 1 : 0, T); }
+    else if (op == 6 || op == 7) { vset_threads(T); vrace_begin(); vreach("parallel-code-reached"); auto D = vdirect(b, op == 6 ? 1 : 0, T); }
+    else if (op == 8 || op == 9) { vset_threads(T); vrace_begin(); vreach("parallel-code-reached"); auto S = vsmoother(b, op == 8 ? 1 : 0, T); }
+    else if (op == 10 || op == 11) { vset_threads(T); vrace_begin(); vreach("parallel-code-reached"); auto S = vexsmoother(b, op == 10 ? 1 : 0, T); }
     else if (op == 12) {
-        vset_threads(T); vreach("parallel-code-reached");
+        vset_threads(T); vrace_begin(); vreach("parallel-code-reached");
         LevelCache lc(g, b.co, b.geo, true, true);
         if ((g.nr() - 1) % 2 == 0 && g.ntheta() % 2 == 0) { PolarGrid c = coarseningGrid(g); LevelCache lcc(*b.L, c); }
     }
@@ -53,7 +53,7 @@ VENTRY(h_gmg_region)
     fillv(xf, 1); fillv(xc, 2); fillv(yf, 3); fillv(yc, 4);
     g->threads_per_level_[0] = 2; g->threads_per_level_[1] = 2;
     vset_threads(2);
-    vreach("parallel-code-reached");
+    vrace_begin(); vreach("parallel-code-reached");
     switch (a[0]) {
     case 0: g->prolongation(1, yf, xc); break;
     case 1: g->restriction(0, yc, xf); break;
